@@ -277,3 +277,11 @@ Definition dump_parse_schema (d : dev) (wp : bool) (limit : N) (builtin : bool) 
   | POk doc => b "ok " ++ dump_sdoc wp doc
   | PErr e => dump_perr e
   end.
+
+(* ParseSchemas / ParseSchemasWithLimit: each source is given as one flag byte ('1' = built-in) followed by its text *)
+Definition dump_parse_schemas (d : dev) (wp : bool) (limit : N) (srcs : list str) : str :=
+  let split (s : str) : bool * str := match s with c :: tl => ((c =? 49)%N, tl) | [] => (false, []) end in
+  match parseSchemas d limit (map split srcs) with
+  | POk doc => b "ok " ++ dump_sdoc wp doc
+  | PErr e => dump_perr e
+  end.
